@@ -145,6 +145,21 @@ End Site.
 Definition key_seen (aliases : bool) (kread : list nat) (s : st) : option (list val) :=
   if aliases then Some (map (fun i => nth i (cells s) MovedFrom) kread) else key s.
 
+(* What the listeners finally receive.  When getEvent is handed the parameter pack as rvalues
+   (std::forward<Args>(args)...) a getEvent policy that takes a parameter by value move-constructs
+   it: every movable parameter the policy reads is moved-from when it is forwarded afterwards. *)
+Definition params_seen (rvalues : bool) (movable : nat -> bool) (kread : list nat) (s : st) : list (nat * val) :=
+  if rvalues
+  then map (fun p => (fst p, if movable (fst p) && existsb (Nat.eqb (fst p)) kread then MovedFrom else snd p)) (params s)
+  else params s.
+
+Theorem rvalue_getevent_refuted :
+  exists evs, admissible 1 Statement evs /\
+              plookup 0 (params_seen true (fun _ => true) [0] (run (fun _ => true) [0] false [Val 7] evs)) = Some MovedFrom.
+Proof.
+  exists [EKey; EFwd 0]. split; [split; [apply Permutation_refl|eexists; reflexivity]|reflexivity].
+Qed.
+
 Theorem aliased_key_refuted :
   exists evs, admissible 1 Statement evs /\
               key_seen true [0] (run (fun _ => true) [0] false [Val 7] evs) = Some [MovedFrom].
